@@ -540,11 +540,20 @@ def populated_ancestors(leaves):
     return s
 
 
-def run_real_cascade(base, fmt, start, leaves, parallel, use_filter):
+def run_real_cascade(base, fmt, start, leaves, parallel, use_filter, stale=None):
     """write the leaves, run the real cascade, return dict pos -> (mode, array) of
-    every tile file found above the start level (jpg: array None)."""
+    every tile file found above the start level (jpg: array None).
+    [stale]: tiles put in place above the start level BEFORE the cascade (the directory
+    holds the output of an earlier cascade); none of them may survive unless the cascade
+    produces a tile there."""
     from toasty.merge import cascade_images, averaging_merger
+    from toasty.image import Image
+    from toasty.pyramid import Pos
     pio = write_leaves(base, fmt, leaves)
+    for p, (_mode, a) in (stale or {}).items():
+        with warnings.catch_warnings():
+            warnings.simplefilter("ignore")
+            Image.from_array(a.copy()).save(pio.tile_path(Pos(*p)), format=fmt)
     flt = None
     if use_filter:
         keep = populated_ancestors(leaves)
@@ -644,12 +653,19 @@ def gen_cascade_cases(rng, n):
                 if rng.random() < 0.45:
                     leaves[(start, x, y)] = (mode, gen_small_tile(nprng, rng, mode, k, start, neg))
         order = postfix_order(start) if rng.random() < 0.5 else random_valid_order(rng, start)
-        cases.append(dict(type="cascade", fmt=fmt, k=k, start=start, fixed=fixed, leaves=leaves, order=order))
+        # half of the cases: tiles already lie above the start level (an earlier cascade's output)
+        stale = {}
+        if i % 2 == 1:
+            for q in postfix_order(start):
+                if rng.random() < 0.5:
+                    stale[q] = (mode, gen_small_tile(nprng, rng, mode, k, start, neg))
+        cases.append(dict(type="cascade", fmt=fmt, k=k, start=start, fixed=fixed, leaves=leaves, order=order, stale=stale))
     return cases
 
 
 def g_ccase(c, files):
-    leaves = g_list([f"({g_pos(p)}, ({g_nat(MODES.index(m))}, {g_zlist(pack2(m, a))}))" for p, (m, a) in c["leaves"].items()])
+    leaves = g_list([f"({g_pos(p)}, ({g_nat(MODES.index(m))}, {g_zlist(pack2(m, a))}))"
+                     for p, (m, a) in list(c["leaves"].items()) + list(c.get("stale", {}).items())])
     order = g_list([g_pos(p) for p in c["order"]])
     allpos = postfix_order(c["start"])
     fl = g_list([f"({g_pos(p)}, {g_oimg(files.get(p))})" for p in allpos])
@@ -727,12 +743,13 @@ def pyramid_plan(rng, tier):
     return plan
 
 
-def compare_pyramid(V, cfg, leaves, files, seedinfo):
+def compare_pyramid(V, cfg, leaves, files, seedinfo, stale=None):
     """model (numpy expansion) vs implementation, plus the property predicate.
     Returns (n_tiles_compared, nontrivial?)"""
     fmt, mode, start, parallel, use_filter, allow_neg = cfg
     lv = {p: (m, a) for p, (m, a, _h) in leaves.items()}
-    case = dict(type="pyramid", cfg=list(cfg), seed=seedinfo, leaves=sorted(map(list, leaves)))
+    case = dict(type="pyramid", cfg=list(cfg), seed=seedinfo, leaves=sorted(map(list, leaves)),
+                tiles_present_before_the_cascade=sorted(map(list, stale or {})))
 
     def diff(expf):
         bad = []
@@ -837,6 +854,7 @@ def run(ctx, V):
         plan = [tuple(c["cfg"]) + (c["seed"],)] + [p for p in plan[:3]]
     n_tiles = 0
     n_pyr = 0
+    n_stale = 0
     nontrivial = set()
     samples = []
     for i, cfg in enumerate(plan):
@@ -848,18 +866,30 @@ def run(ctx, V):
         prng = common.rng_for(seedinfo)
         fmt, mode, start, parallel, use_filter, allow_neg = cfg
         leaves = gen_pyramid(prng, fmt, mode, start, allow_neg=allow_neg)
+        # every third unfiltered pyramid: the directory already holds tiles above the start
+        # level (left by an earlier cascade of other data): above populated leaves, above
+        # entirely undefined leaves, and where no leaf exists at all
+        stale = None
+        if i % 3 == 1 and not use_filter and fmt != "jpg":
+            snp = np.random.RandomState(prng.randrange(1 << 30))
+            upper = [(n, x, y) for n in range(start) for x in range(2 ** n) for y in range(2 ** n)]
+            stale = {}
+            for q in upper:
+                if prng.random() < (0.7 if len(upper) <= 5 else 0.4):
+                    stale[q] = (mode, gen_leaf(snp, mode, 1.0 if mode in ("F32", "F64", "F16x3") else 1, "none", amax=40))
+            n_stale += len(stale)
         d = os.path.join(base, f"p{i}")
         try:
-            _pio, files = run_real_cascade(d, fmt, start, leaves, parallel, use_filter)
+            _pio, files = run_real_cascade(d, fmt, start, leaves, parallel, use_filter, stale=stale)
         except Exception as e:  # noqa
             V.disagreement("cascade_images completes", dict(type="pyramid", cfg=list(cfg), seed=seedinfo), "returns", repr(e), True)
             shutil.rmtree(d, ignore_errors=True)
             continue
-        nt, ne = compare_pyramid(V, cfg, leaves, files, seedinfo)
+        nt, ne = compare_pyramid(V, cfg, leaves, files, seedinfo, stale=stale)
         # serial and parallel runs give the same files (order independence): rerun the other way
         if not quick or i % 4 == 0:
             d2 = os.path.join(base, f"p{i}b")
-            _pio2, files2 = run_real_cascade(d2, fmt, start, leaves, 2 if parallel == 1 else 1, use_filter)
+            _pio2, files2 = run_real_cascade(d2, fmt, start, leaves, 2 if parallel == 1 else 1, use_filter, stale=stale)
             same = set(files) == set(files2) and all(fmt == "jpg" or same_pixels(files[p][1], files2[p][1]) for p in files)
             if not same:
                 V.disagreement("cascade_order_independent: serial vs parallel=2 outputs", dict(type="pyramid", cfg=list(cfg), seed=seedinfo),
@@ -882,12 +912,13 @@ def run(ctx, V):
         rule="real cascades: 256x256 tiles, start depth 1-3, sparse leaf sets (single leaf, empty quadrant, sparse, dense, full), "
              "undefined-pixel patterns (none/random/blocks/alternating rows/all; entirely undefined leaves put in place directly), "
              "npy x 8 modes, png RGB/RGBA, fits float+int, jpg existence; serial and real parallel=2, some with an accept-populated TOAST filter; "
+             "every third unfiltered pyramid starts from a directory that already holds tiles above the start level (re-cascade); "
              "every pixel of every produced tile compared with the numpy expansion of the model and with the display-orientation statement; "
              "non-trivial = distinct pyramid with a proper sparse subset of leaves and at least one produced tile. "
              "Model-side: single merges (k=1..4, all modes/parities/sparsity, both integer rules) and whole cascades (k=1,2; start 1,2; "
              "postfix and random children-first orders) evaluated in Coq against the expansion; real averaging_merger on small arrays "
              "(all dtypes, negative ints, NaN) against Merge.averaging_merger; non-trivial merges = distinct (format,k,rule,presence pattern) with 1-3 children present.",
-        real_pyramids=n_pyr, real_tiles_compared=n_tiles, pixels_compared=n_tiles * TILE * TILE,
+        real_pyramids=n_pyr, real_tiles_compared=n_tiles, tiles_present_before_the_cascade=n_stale, pixels_compared=n_tiles * TILE * TILE,
         small_merges=len(mcs), small_cascades=len(ccs), averaging_cases=len(acs),
         placement={f"{f}/{k}": v for (f, k), v in _PLACEMENT.items() if k == TILE},
         input_histogram=hist, samples=samples)
